@@ -38,6 +38,12 @@ def modelStep (d : DState) (op : List String) (obs : List (List String)) : DStat
   | ["clearcache"], some s => let (s', evs) := clearCache s; ({ st := some s' }, renderEvs evs)
   | ["clearall"], some s => let (s', evs) := clearAll s; ({ st := some s' }, renderEvs evs)
   | ["destroy"], some s => let (s', _) := destroy s; ({ st := some s' }, [])
+  | ["gcreate"], _ =>
+    -- GlobalSimpleStringCache(): the member cache is constructed (node table from
+    -- defaultMallocAllocator(), not observed) and the previous string allocator becomes its allocator
+    let (s, _) := create 0
+    ({ st := some s }, [])
+  | ["gdestroy"], some s => let (s', evs) := globalDestroy s; ({ st := some s' }, renderEvs (evs.filter fun e => match e with | .ufree 0 _ => false | _ => true))
   | ["skip"], _ => (d, [])
   | _, _ => (d, ["bad-op"])
 
@@ -122,6 +128,11 @@ def specStep (sh : Shadow) (o : Proto.Op) : Except String Shadow := do
     return { sh with out := [] }
   | ["destroy"] =>
     return sh
+  | ["gcreate"] => return sh
+  | ["gdestroy"] =>
+    -- the global cache is gone: everything it obtained must have been returned
+    if !sh.live.isEmpty then throw s!"after ~GlobalSimpleStringCache {sh.live.length} underlying blocks were never returned, e.g. {sh.live.head!.1}"
+    return { sh with out := [] }
   | ["skip"] => return sh
   | _ => throw "bad-op"
 
